@@ -73,6 +73,26 @@ def gen_cases(tier, seed):
         for sp in nonrum:
             o[sp + "_head"] = 0
         cases.append(workload.pipeline_case(iso, o, "pasture_only_herds/%s" % o["shutoff"]))
+    # factory-made foods (single-cell protein, cellulosic sugar) arriving while feed is still demanded and crops are disrupted: round 2
+    # plans their share in feed, round 3 charges the feed it granted - the people's ration round 2 pinned must survive that;
+    # cold, industrialised countries (large factory output next to the crops left) with a low or a shipped threshold
+    cold = [i for i in ("FIN", "CAN", "SWE", "NOR", "RUS", "USA", "DEU", "JPN", "KOR", "GBR", "PRT", "URY", "POL", "NLD", "BEL", "AUT", "CHE", "DNK", "CZE", "FRA") if i in isos]
+    for j, iso in enumerate(workload.rotate(cold, seed * 5)[: (16 if tier == "quick" else 20)]):
+        for rep in range(1 if tier == "quick" else 8):
+            o = workload.base_country(scenario=["industrial_foods", "methane_scp", "cellulosic_sugar", "all_resilient_foods", "all_resilient_foods_and_more_area"][(j + rep + seed) % 5],
+                                      shutoff=["continued_after_10_percent_fed", "continued", "long_delayed_shutoff_after_10_percent_fed"][(j + rep) % 3], NMONTHS=[72, 120, 48][(j + rep // 3) % 3],
+                                      meat_strategy=workload.FAMILIES_COMMON["meat_strategy"][(j + rep) % 3])
+            if o["shutoff"] not in workload.FAMILIES_COMMON["shutoff"]:
+                o["shutoff"] = "continued_after_10_percent_fed"
+            o.update(cull=["dont_eat_culled", "do_eat_culled"][(j + rep) % 2], fish=rnd.choice(["zero", "nuclear_winter"]), nutrition=rnd.choice(["baseline", "catastrophe"]),
+                     waste=rnd.choice(["doubled_prices_in_country", "baseline_in_country", "tripled_prices_in_country"]))
+            if (j + rep) % 2 == 0:
+                # the largest feed demand the options allow (herds kept at their size, their meat not eaten) next to sugar factories
+                o.update(cull="dont_eat_culled", meat_strategy="baseline_breeding", shutoff="continued_after_10_percent_fed", fish=["zero", "zero", "nuclear_winter"][(j // 2 + rep) % 3],
+                         scenario=["industrial_foods", "cellulosic_sugar", "all_resilient_foods"][(j // 2 + rep + seed) % 3])
+            if rep % 2:
+                o["MINIMUM_PERCENT_FED_BEFORE_NONHUMAN_CONSUMPTION_ALLOWED"] = [5, 15, 25, 10][(j + rep) % 4]
+            cases.append(workload.pipeline_case(iso, o, "factory_foods_with_feed/%s/%s#%d" % (o["scenario"], o["shutoff"], rep)))
     for T in THRESHOLDS:
         for j in range(4 if tier == "quick" else 24):
             o = workload.base_country(shutoff=rnd.choice(["continued", "long_delayed_shutoff", "continued_after_10_percent_fed", "short_delayed_shutoff"]),
